@@ -53,9 +53,19 @@ def callsite_assertions(X, ins, key, argv, argops):
         return
     for (ckey, lab, ast, txt) in c['calls']:
         inloop = None
+        headloop = None
+        only_ = False
         if '@L' in ckey:
             # call <callee>@Lk ...: the clause applies to the call sites inside loop k only
             ckey, lk_ = ckey.rsplit('@L', 1)
+            # @Lk^j: the sites inside loop k, with atHead / freshiter referring to the current iteration of the
+            # enclosing loop j
+            headloop = None
+            only_ = lk_.endswith('!')      # @Lk!: only the sites whose innermost loop is loop k
+            lk_ = lk_.rstrip('!')
+            if '^' in lk_:
+                lk_, hl_ = lk_.split('^', 1)
+                headloop = int(hl_)
             inloop = int(lk_)
         if ckey != key:
             continue
@@ -67,7 +77,9 @@ def callsite_assertions(X, ins, key, argv, argops):
             lp_ = [l for l in X.cfg['loops'].values() if l['ordinal'] == inloop]
             if not lp_ or X.block not in lp_[0]['body']:
                 continue
-        shown_ = ckey if inloop is None else '%s@L%d' % (ckey, inloop)
+            if only_ and any(X.block in l['body'] and len(l['body']) < len(lp_[0]['body']) for l in X.cfg['loops'].values()):
+                continue
+        shown_ = ckey if inloop is None else ('%s@L%d%s' % (ckey, inloop, '!' if only_ else '') if headloop is None else '%s@L%d^%d' % (ckey, inloop, headloop))
         names = X.resolve_names(X.block, upto_idx=X.cur_idx)
         env = X.spec_env(names)
         for i, (a, ao) in enumerate(zip(argv, argops)):
@@ -78,7 +90,7 @@ def callsite_assertions(X, ins, key, argv, argops):
         best_ = None
         for h_, l_ in X.cfg['loops'].items():
             if X.block in l_['body'] and h_ in getattr(X, 'loopstate', {}) and hasattr(X.loopstate[h_], 'head_heap'):
-                if inloop is not None and l_['ordinal'] != inloop:
+                if inloop is not None and l_['ordinal'] != (inloop if headloop is None else headloop):
                     continue
                 if best_ is None or len(l_['body']) < len(X.cfg['loops'][best_]['body']):
                     best_ = h_
